@@ -30,7 +30,7 @@ RTS_KINDS = (6, 7)
 RTS_DECL = "struct Tail { count: u32, items: array<f32> }"
 
 
-def make_source(pairs, used, kinds=None):
+def make_source(pairs, used, kinds=None, entry=True):
     lines = []
     body = []
     if kinds and any(k in RTS_KINDS for k in kinds):
@@ -44,8 +44,12 @@ def make_source(pairs, used, kinds=None):
         lines.append("@group(%s) @binding(%s) %s" % (gs, bs, decl.format(n=n)))
         if used and use:
             body.append("    " + use.format(n=n))
-    lines.append("@compute @workgroup_size(1)\nfn main() {\n%s\n}\n" % "\n".join(body))
-    return "\n".join(lines)
+    if entry:
+        lines.append("@compute @workgroup_size(1)\nfn main() {\n%s\n}\n" % "\n".join(body))
+    elif used:
+        # declarations and a helper function only (a library file): the contract is the same
+        lines.append("fn helper() {\n%s\n}\n" % "\n".join(body))
+    return "\n".join(lines) + ("\n" if not entry else "")
 
 
 def reference(pairs):
@@ -115,6 +119,11 @@ def main(tier, replay, t0):
                 for val, used in ((None, True), ("all", False)):
                     cases.append(("e%d" % n, list(seq), used, val, None))
                     n += 1
+            if length <= 2:
+                # no entry point at all
+                for val, used in ((None, False), ("all", True)):
+                    cases.append(("n%d" % n, list(seq), used, val, None))
+                    n += 1
     exhaustive_n = len(cases)
     nrand = 300 if tier == "quick" else 6000
     pool = [0, 1, 2, 3, 4, 5, 7, 8, 15, 16, 31, 255, 256, 999, 65535, 65536, 2 ** 31 - 1,
@@ -137,7 +146,8 @@ def main(tier, replay, t0):
             pairs.append(r.choice(pairs))
         r.shuffle(pairs)
         kinds = [r.randrange(len(KINDS)) for _ in pairs]
-        cases.append(("r%d" % k, pairs, r.random() < 0.5, r.choice([None, "all"]), kinds))
+        cases.append(("%s%d" % ("nr" if r.random() < 0.15 else "r", k), pairs, r.random() < 0.5,
+                      r.choice([None, "all"]), kinds))
     # derive switches are not part of the numbering contract: the verdict must not depend on them
     ropt = core.rng("c11-options")
     derive = {}
@@ -149,7 +159,7 @@ def main(tier, replay, t0):
     jobs = []
     meta = {}
     for cid, pairs, used, val, kinds in cases:
-        src = make_source(pairs, used, kinds)
+        src = make_source(pairs, used, kinds, entry=not cid.startswith("n"))
         opt = dict(derive.get(cid, {}))
         if val:
             opt["val"] = val
@@ -249,7 +259,7 @@ def main(tier, replay, t0):
                     viol.append(Violation("ok-but-wrong-entry-slots", shape,
                                           "declared %r, from_bindings supplies %r" % (want, eb),
                                           rp))
-        if len(samples) < 6 and cid.startswith("r"):
+        if len(samples) < 6 and cid[0] in "rn":
             samples.append({"pairs": pairs, "validate": val, "used": used, "expected": exp,
                             "observed": key})
     ok_cases = by_outcome.get("ok", 0)
